@@ -232,35 +232,44 @@ func c15R3(p *core.Program, r *core.Report) {
 		check := func(callee, delim, what string) {
 			found, guarded := false, false
 			var pos token.Pos = f.Node().Pos()
+			g := graph(f)
 			for _, call := range core.CallsTo(info, f.Body, false, callee) {
 				if len(call.Args) != 2 || !constStrIs(info, call.Args[1], delim) {
 					continue
 				}
 				found = true
 				pos = call.Pos()
-				// result variable compared > 0 (or >= 1)
-				path := core.PathTo(f.Body, call)
-				for k := len(path) - 1; k >= 0; k-- {
-					ifs, ok := path[k].(*ast.IfStmt)
-					if !ok {
-						continue
+				// the variable receiving the index
+				var v *types.Var
+				if as, ok := g.PointOf(call).Node().(*ast.AssignStmt); ok && len(as.Lhs) == 1 && len(as.Rhs) == 1 && as.Rhs[0] == ast.Expr(call) {
+					v = core.VarOf(info, as.Lhs[0])
+				}
+				if v == nil {
+					continue
+				}
+				// every use of the index as a slice bound happens where it is known to be > 0
+				uses, okUses := 0, true
+				ast.Inspect(f.Body, func(n ast.Node) bool {
+					se, isSlice := n.(*ast.SliceExpr)
+					if !isSlice {
+						return true
 					}
-					as, ok := ifs.Init.(*ast.AssignStmt)
-					if !ok || len(as.Lhs) != 1 {
-						break
-					}
-					v := core.VarOf(info, as.Lhs[0])
-					for _, a := range cfgxAtoms(ifs.Cond, true) {
-						x, op, c, ok := cmpConst(info, a.Cond)
-						if ok && a.Val && core.VarOf(info, x) == v && ((op == token.GTR && c == 0) || (op == token.GEQ && c == 1)) {
-							guarded = true
+					for _, bnd := range []ast.Expr{se.Low, se.High} {
+						if bnd != nil && core.Mentions(info, bnd, v) {
+							uses++
+							if !positiveFact(info, g.FactsAt(g.PointOf(se)), v) {
+								okUses = false
+							}
 						}
 					}
-					break
+					return true
+				})
+				if uses > 0 && okUses {
+					guarded = true
 				}
 			}
 			r.Check(found && guarded, rule, f, what, pos,
-				callee+"(_, \""+delim+"\") with result > 0",
+				callee+"(_, \""+delim+"\") with every slice at the result guarded by result > 0",
 				"sibling does not locate the boundary with "+callee+"(_, \""+delim+"\") > 0 like the other reference parsers; they would disagree on where the package path ends")
 		}
 		check("strings.Index", "[", "search bounded by the first '['")
@@ -318,33 +327,49 @@ func c15R4(p *core.Program, r *core.Report) {
 		r.Anchor(rule, "pkg/namer.(*rawNamer).processName")
 		return
 	}
-	info := pn.Info()
-	// the loop over t.Walk
+	// the visit of every node: `for x := range t.Walk { body }` or `t.Walk(func(x *TypeRef) bool { body })`
+	var body *ast.BlockStmt
+	var in *core.Func
+	var x *types.Var
 	var loop *ast.RangeStmt
-	ast.Inspect(pn.Body, func(n ast.Node) bool {
-		if rs, ok := n.(*ast.RangeStmt); ok {
-			if sel, ok := ast.Unparen(rs.X).(*ast.SelectorExpr); ok && sel.Sel.Name == "Walk" {
-				loop = rs
+	{
+		info := pn.Info()
+		ast.Inspect(pn.Body, func(n ast.Node) bool {
+			switch y := n.(type) {
+			case *ast.RangeStmt:
+				if sel, ok := ast.Unparen(y.X).(*ast.SelectorExpr); ok && sel.Sel.Name == "Walk" {
+					loop, body, in, x = y, y.Body, pn, core.VarOf(info, y.Key)
+				}
+			case *ast.CallExpr:
+				if core.CalleeName(info, y) == core.GM("pkg/types", "*TypeRef", "Walk") && len(y.Args) == 1 {
+					if lit, ok := ast.Unparen(y.Args[0]).(*ast.FuncLit); ok {
+						if lf := p.FuncOfLit(lit); lf != nil && len(lit.Type.Params.List) == 1 && len(lit.Type.Params.List[0].Names) == 1 {
+							body, in = lit.Body, lf
+							x, _ = info.ObjectOf(lit.Type.Params.List[0].Names[0]).(*types.Var)
+						}
+					}
+				}
 			}
-		}
-		return true
-	})
-	if loop == nil {
-		r.Anchor(rule, "range over (*TypeRef).Walk in processName")
+			return true
+		})
+	}
+	if body == nil || x == nil {
+		r.Anchor(rule, "visit of every reference node (range over / callback of (*TypeRef).Walk) in processName")
 		return
 	}
-	x := core.VarOf(info, loop.Key)
-	g := graph(pn)
+	info := in.Info()
+	g := graph(in)
 	isPkgPathOfX := func(e ast.Expr) bool {
 		sel, ok := ast.Unparen(e).(*ast.SelectorExpr)
-		return ok && sel.Sel.Name == "PkgPath" && core.VarOf(info, sel.X) == x && x != nil
+		return ok && sel.Sel.Name == "PkgPath" && core.VarOf(info, sel.X) == x
 	}
 	isOwnPkg := func(e ast.Expr) bool {
 		f := core.FieldOf(info, e)
 		return f != nil && f.Name() == "pkgPath"
 	}
+	isEmpty := func(e ast.Expr) bool { return constStrIs(info, e, "") }
 	var blank, rewrite *ast.AssignStmt
-	ast.Inspect(loop.Body, func(n ast.Node) bool {
+	ast.Inspect(body, func(n ast.Node) bool {
 		as, ok := n.(*ast.AssignStmt)
 		if !ok || len(as.Lhs) != 1 || !isPkgPathOfX(as.Lhs[0]) {
 			return true
@@ -356,44 +381,48 @@ func c15R4(p *core.Program, r *core.Report) {
 		}
 		return true
 	})
-	eqFact := func(f cfgxFact, other func(ast.Expr) bool) bool {
-		b, ok := ast.Unparen(f.Cond).(*ast.BinaryExpr)
-		if !ok || b.Op != token.EQL {
-			return false
+	says := func(facts []cfgxFact, other func(ast.Expr) bool, want bool) bool {
+		for _, f := range facts {
+			if v, ok := eqFact(f, isPkgPathOfX, other); ok && v == want {
+				return true
+			}
 		}
-		return (isPkgPathOfX(b.X) && other(b.Y)) || (isPkgPathOfX(b.Y) && other(b.X))
+		return false
 	}
-	isEmpty := func(e ast.Expr) bool { return constStrIs(info, e, "") }
 	if blank == nil {
-		r.Bad(rule, pn, "own-package argument is blanked", loop.Pos(), "no `x.PkgPath = \"\"` for arguments of the file's own package: they would be printed qualified")
+		r.Bad(rule, pn, "own-package argument is blanked", body.Pos(), "no `x.PkgPath = \"\"` for arguments of the file's own package: they would be printed qualified")
 	} else {
-		facts := g.FactsAt(g.PointOf(blank))
-		r.Check(factHolds(facts, true, func(f cfgxFact) bool { return eqFact(f, isOwnPkg) }), rule, pn, "own-package argument is blanked", blank.Pos(),
+		r.Check(says(g.FactsAt(g.PointOf(blank)), isOwnPkg, true), rule, pn, "own-package argument is blanked", blank.Pos(),
 			"`x.PkgPath = \"\"` only under x.PkgPath == n.pkgPath", "the path is blanked without testing that it is the namer's own package")
 	}
 	if rewrite == nil {
-		r.Bad(rule, pn, "foreign argument is rewritten to its import name", loop.Pos(), "no `x.PkgPath = tracker.LocalNameOf(x.PkgPath)` in the rewrite loop")
+		r.Bad(rule, pn, "foreign argument is rewritten to its import name", body.Pos(), "no `x.PkgPath = tracker.LocalNameOf(x.PkgPath)` in the rewrite loop")
 	} else {
-		facts := g.FactsAt(g.PointOf(rewrite))
-		okOwn := factHolds(facts, false, func(f cfgxFact) bool { return eqFact(f, isOwnPkg) })
-		r.Check(okOwn, rule, pn, "foreign argument is rewritten to its import name", rewrite.Pos(),
+		r.Check(says(g.FactsAt(g.PointOf(rewrite)), isOwnPkg, false), rule, pn, "foreign argument is rewritten to its import name", rewrite.Pos(),
 			"rewrite executes only when the path differs from the own package", "own-package arguments can reach the import rewrite")
 		call := core.AsCall(info, rewrite.Rhs[0], "("+core.G("pkg/namer.ImportTracker")+").LocalNameOf")
 		r.Check(len(call.Args) == 1 && isPkgPathOfX(call.Args[0]), rule, pn, "LocalNameOf is asked for the node's own path", rewrite.Pos(),
 			"argument is x.PkgPath", "LocalNameOf is called with something else than the visited node's path")
 	}
-	// every iteration with a non-empty path reaches blank or rewrite
+	// every visit with a non-empty path reaches blank or rewrite
 	if blank != nil && rewrite != nil {
-		start := cfgxPoint{B: g.BlockOf(kindRangeBody, loop), I: 0}
+		var start cfgxPoint
+		if loop != nil {
+			start = cfgxPoint{B: g.BlockOf(kindRangeBody, loop), I: 0}
+		} else {
+			start = g.Entry()
+		}
 		bp, rp := g.PointOf(blank), g.PointOf(rewrite)
 		_, escapes := g.Reach(start, true, cfgxQuery{
 			Target: func(q cfgxPoint) bool {
-				// back to the loop head or out of the loop without handling
-				return q.B.Stmt == ast.Stmt(loop) && (q.B.Kind == kindRangeLoop || q.B.Kind == kindRangeDone)
+				if loop != nil {
+					return q.B.Stmt == ast.Stmt(loop) && (q.B.Kind == kindRangeLoop || q.B.Kind == kindRangeDone)
+				}
+				return g.IsExit(q)
 			},
 			Cut: func(q cfgxPoint) bool { return q == bp || q == rp },
 			CutEdge: func(b *cfgBlock, k int) bool {
-				// the `x.PkgPath == ""` true edge is the legitimate skip
+				// the `x.PkgPath == ""` edge is the legitimate skip
 				if len(b.Nodes) == 0 || len(b.Succs) != 2 {
 					return false
 				}
@@ -401,15 +430,42 @@ func c15R4(p *core.Program, r *core.Report) {
 				if !ok {
 					return false
 				}
+				for _, br := range g.Branches() {
+					if br.B != b {
+						continue
+					}
+					if br.Tag != nil {
+						if v, ok := eqFact(cfgxFact{Cond: br.Cond, Tag: br.Tag, Val: k == 0}, isPkgPathOfX, isEmpty); ok && v {
+							return true
+						}
+						return false
+					}
+				}
 				for _, a := range cfgxAtoms(e, k == 0) {
-					if a.Val && eqFact(a, isEmpty) {
+					if v, ok := eqFact(a, isPkgPathOfX, isEmpty); ok && v {
 						return true
 					}
 				}
 				return false
 			},
 		})
-		r.Check(!escapes, rule, pn, "every visited node with a non-empty path is handled exactly once", loop.Pos(),
-			"each iteration either skips an empty path, blanks the own package or registers+rewrites", "an iteration can finish without blanking or rewriting a non-empty package path")
+		r.Check(!escapes, rule, pn, "every visited node with a non-empty path is handled exactly once", body.Pos(),
+			"each visit either skips an empty path, blanks the own package or registers+rewrites", "a visit can finish without blanking or rewriting a non-empty package path")
+		// the callback form must keep descending
+		if loop == nil {
+			okRet := true
+			ast.Inspect(body, func(n ast.Node) bool {
+				if _, isLit := n.(*ast.FuncLit); isLit {
+					return false
+				}
+				if ret, ok := n.(*ast.ReturnStmt); ok && len(ret.Results) == 1 {
+					if tv := info.Types[ret.Results[0]]; tv.Value == nil || tv.Value.String() != "true" {
+						okRet = false
+					}
+				}
+				return true
+			})
+			r.Check(okRet, rule, pn, "the walk callback keeps descending (returns true)", body.Pos(), "all returns are `return true`", "the Walk callback can return false: nested type arguments below that node are not rewritten")
+		}
 	}
 }
